@@ -142,3 +142,16 @@ Theorem C04_kernel_run_example :
   kernel_run 10 4000 32768 16 7 3000 (primes_between 7 (N.sqrt 3000)) = Some (primes_between 7 3000).
 Proof. exact kernel_run_small. Qed.
 Print Assumptions C04_kernel_run_example.
+
+(** ---- the pre-sieve: the 16 tables of the source (123 KB) are exact.  Bit b of byte k of the AND of all tables
+    (byte k stands for the numbers 30k+7 .. 30k+31) is set iff 30k + bv[b] is divisible by none of the primes 7..163;
+    the restored first bytes (primeBits) mark exactly the primes among 7..241 *)
+From PS Require Import Gen.PreSieveTables Model.PreSieveM Proofs.TablesP Proofs.PreSieveTabP Proofs.PreSieveP.
+Theorem C04_presieve_tables_ok : forall k b, b < 8 ->
+  (N.testbit (presieve_and k) b = true <-> forall p, In p (primes_between 7 163) -> (30 * k + nthb b) mod p <> 0).
+Proof. exact presieve_and_spec. Qed.
+Print Assumptions C04_presieve_tables_ok.
+Theorem C04_primeBits_ok :
+  forallb (fun k => forallb (fun b => Bool.eqb (N.testbit (nth (N.to_nat k) primeBits 255) b) (is_prime (30 * k + nthb b))) (Nseq 8)) (Nseq 8) = true.
+Proof. exact primeBits_ok. Qed.
+Print Assumptions C04_primeBits_ok.
